@@ -386,6 +386,11 @@ func Sleep(d time.Duration) {
 
 func never() bool { return false }
 
+// SetClock sets the wall clock the run starts at (default Epoch). Call before Run.
+//
+//go:norace
+func (k *Kernel) SetClock(t time.Time) { k.now, k.start = t, t }
+
 // Elapsed is the virtual time since the start of the run.
 //
 //go:norace
